@@ -222,3 +222,24 @@ def build_runner(pid, timeout=600):
     if rc != 0 or not os.path.exists(runner):
         return None, {'kind': 'runner-build-failed', 'message': out[-800:]}
     return runner, {'wall': time.time() - t0}
+
+
+def coqchk(pid, allowed_axioms=(), timeout=1500):
+    """Independent re-check of Props/<pid>.vo and everything it depends on (thorough tier)."""
+    with Lock():
+        pass  # only make sure no build is half-way; coqchk itself reads .vo files
+    rc, out, wall = sh('coqchk -silent -o -R . Verif Verif.Props.%s' % pid, timeout, cwd=COQ)
+    res = {'rc': rc, 'wall': round(wall, 1), 'axioms': [], 'ok': False, 'tail': out[-1500:]}
+    if rc != 0:
+        return res
+    m = re.search(r'\* Axioms:(.*?)\n\s*\n\* Constants', out, flags=re.S)
+    axioms = []
+    if m:
+        body = m.group(1).strip()
+        if body and body != '<none>':
+            axioms = [l.strip() for l in body.split('\n') if l.strip()]
+    res['axioms'] = axioms
+    flags_clean = all(re.search(re.escape(k) + r':\s*<none>', out) for k in
+                      ('relying on type-in-type', 'relying on unsafe (co)fixpoints', 'positivity is assumed'))
+    res['ok'] = flags_clean and all(any(a.endswith(x) or x in a for x in allowed_axioms) for a in axioms)
+    return res
